@@ -178,6 +178,7 @@ struct Objects {
   std::shared_ptr<Base> sb = std::make_shared<Base>();
   std::shared_ptr<Derived> sd = std::make_shared<Derived>();
   std::shared_ptr<const Base> scb = std::make_shared<const Base>();
+  std::shared_ptr<const Derived> scd = std::make_shared<const Derived>();
 };
 
 static void add_objects(ChaiScript_Basic &chai, Objects &o) {
@@ -204,6 +205,7 @@ static void add_objects(ChaiScript_Basic &chai, Objects &o) {
   chai.add_global(var(o.sb), "sb");
   chai.add_global(var(o.sd), "sd");
   chai.add_global_const(const_var(o.scb), "scb");
+  chai.add_global_const(const_var(o.scd), "scd");
   chai.add_global(var(&o.ob), "pb");
   chai.eval("global vi = 5; global vm = [\"a\": 1, \"b\": 2]; global vmix = [1, \"x\"]; global vd = 2.5; global vb = true; global vs = \"str\"; global vc = 'c'; global vv = [1, 2];"
             "global sf = fun(x) { x + 1 }; class Dyn { def Dyn() { } }; global dy = Dyn(); global un; global vl = 7l; global vu = 8u; global vf = 1.5f;"
@@ -215,7 +217,7 @@ static const std::map<std::string, std::string> &kinds() {
       {"lit_int", "5"}, {"var_int", "vi"}, {"const_int", "chi"}, {"href_int", "hi"}, {"lit_dbl", "2.5"}, {"var_dbl", "vd"}, {"lit_bool", "true"}, {"var_bool", "vb"},
       {"lit_str", "\"s\""}, {"var_str", "vs"}, {"href_str", "hs"}, {"var_char", "vc"}, {"var_long", "vl"}, {"var_uint", "vu"}, {"var_float", "vf"},
       {"base", "ob"}, {"derived", "od"}, {"other", "oo"}, {"const_base", "cob"}, {"const_derived", "cod"}, {"shared_base", "sb"}, {"shared_derived", "sd"},
-      {"shared_const_base", "scb"}, {"ptr_base", "pb"}, {"script_base", "sbo"}, {"script_derived", "sdo"}, {"script_other", "soo"},
+      {"shared_const_base", "scb"}, {"shared_const_derived", "scd"}, {"ptr_base", "pb"}, {"script_base", "sbo"}, {"script_derived", "sdo"}, {"script_other", "soo"},
       {"script_fn", "sf"}, {"dynobj", "dy"}, {"undef", "un"}, {"vector", "vv"}, {"map", "vm"}, {"vector_mixed", "vmix"}, {"ret_int", "(vi + 1)"}, {"ret_str", "(vs + \"x\")"}};
   return k;
 }
